@@ -1,0 +1,412 @@
+//! Simulation seams for deterministic-simulation testing.
+//!
+//! This module only exists when the crate is compiled with `--cfg grafeo_verif`.
+//! It has no dependencies and changes no behaviour on its own: every facade below
+//! forwards to `std` unless a simulator has installed hooks on the current thread.
+//!
+//! A source file opts in with one line,
+//! `#[cfg(grafeo_verif)] use grafeo_common::verif::fake_std as std;`
+//! which makes `std::fs`, `std::io::BufWriter`, `std::time`, `std::sync::atomic` and
+//! `std::thread::scope` inside that file resolve to the facades in [`fake_std`].
+
+use ::std::cell::{Cell, RefCell};
+use ::std::collections::BTreeMap;
+
+/// What the file-system tap reports. Paths are the paths the code used.
+#[derive(Debug, Clone)]
+pub enum FsEvent {
+    /// A file was opened through `OpenOptions` (append mode as used by the WAL).
+    Open {
+        path: ::std::path::PathBuf,
+        existed: bool,
+        len: u64,
+    },
+    /// `File::create`: created or truncated.
+    Create { path: ::std::path::PathBuf },
+    /// Bytes reached the file (i.e. left any `BufWriter`).
+    Write {
+        path: ::std::path::PathBuf,
+        data: Vec<u8>,
+    },
+    /// `sync_all` returned successfully.
+    Sync { path: ::std::path::PathBuf },
+    Rename {
+        from: ::std::path::PathBuf,
+        to: ::std::path::PathBuf,
+    },
+    Remove { path: ::std::path::PathBuf },
+}
+
+/// Hooks a simulator installs on the current OS thread.
+pub struct Hooks {
+    /// Receives every file-system event of seamed files.
+    pub fs_event: Option<Box<dyn FnMut(FsEvent)>>,
+    /// Simulated monotonic clock in nanoseconds (None = real clock).
+    pub clock_ns: Option<Box<dyn Fn() -> u64>>,
+    /// Called at named scheduling points (before hooked atomics, explicit yield points).
+    pub yield_point: Option<Box<dyn Fn(&'static str)>>,
+}
+
+thread_local! {
+    static HOOKS: RefCell<Option<Hooks>> = const { RefCell::new(None) };
+    static KNOBS: RefCell<BTreeMap<&'static str, u64>> = const { RefCell::new(BTreeMap::new()) };
+    static ACTIVE: Cell<bool> = const { Cell::new(false) };
+}
+
+/// Installs (or clears) the hooks of the current OS thread.
+pub fn install(hooks: Option<Hooks>) {
+    ACTIVE.with(|a| a.set(hooks.is_some()));
+    HOOKS.with(|h| *h.borrow_mut() = hooks);
+}
+
+/// True while a simulator has hooks installed on this thread.
+#[inline]
+pub fn active() -> bool {
+    ACTIVE.try_with(Cell::get).unwrap_or(false)
+}
+
+/// Sets a tuning knob for the current thread (`None` removes it).
+pub fn set_knob(name: &'static str, value: Option<u64>) {
+    KNOBS.with(|k| {
+        let mut k = k.borrow_mut();
+        match value {
+            Some(v) => {
+                k.insert(name, v);
+            }
+            None => {
+                k.remove(name);
+            }
+        }
+    });
+}
+
+/// Reads a tuning knob; `None` (the shipped constant applies) unless a simulator set it.
+#[inline]
+pub fn knob(name: &'static str) -> Option<u64> {
+    KNOBS
+        .try_with(|k| k.borrow().get(name).copied())
+        .unwrap_or(None)
+}
+
+/// A named scheduling point. No-op unless a simulator installed a `yield_point` hook.
+#[inline]
+pub fn yield_point(name: &'static str) {
+    if !active() {
+        return;
+    }
+    // The hook may switch to another simulated thread that re-enters this module, so the
+    // RefCell borrow must not be held across the call: copy a raw pointer out first.
+    let f: Option<*const dyn Fn(&'static str)> = HOOKS.with(|h| {
+        h.borrow()
+            .as_ref()
+            .and_then(|h| h.yield_point.as_ref().map(|b| &**b as *const _))
+    });
+    if let Some(f) = f {
+        // SAFETY: hooks are only replaced by `install`, which the simulator calls outside
+        // of any simulated execution.
+        #[allow(unsafe_code)]
+        unsafe {
+            (*f)(name);
+        }
+    }
+}
+
+fn fs_event(ev: FsEvent) {
+    if !active() {
+        return;
+    }
+    HOOKS.with(|h| {
+        if let Some(h) = h.borrow_mut().as_mut()
+            && let Some(f) = h.fs_event.as_mut()
+        {
+            f(ev);
+        }
+    });
+}
+
+fn clock_ns() -> Option<u64> {
+    if !active() {
+        return None;
+    }
+    HOOKS.with(|h| {
+        h.borrow()
+            .as_ref()
+            .and_then(|h| h.clock_ns.as_ref().map(|f| f()))
+    })
+}
+
+/// Drop-in replacement for the parts of `std` the seamed files use.
+pub mod fake_std {
+    pub use ::std::*;
+
+    /// `std::fs` with a tap on `File`, `OpenOptions`, `rename` and `remove_file`.
+    pub mod fs {
+        pub use ::std::fs::*;
+        use ::std::io;
+        use ::std::path::{Path, PathBuf};
+
+        use super::super::{FsEvent, fs_event};
+
+        /// Pass-through file that reports writes and syncs.
+        #[derive(Debug)]
+        pub struct File {
+            inner: ::std::fs::File,
+            path: PathBuf,
+        }
+
+        impl File {
+            pub fn open<P: AsRef<Path>>(path: P) -> io::Result<File> {
+                let inner = ::std::fs::File::open(path.as_ref())?;
+                Ok(File {
+                    inner,
+                    path: path.as_ref().to_path_buf(),
+                })
+            }
+
+            pub fn create<P: AsRef<Path>>(path: P) -> io::Result<File> {
+                let inner = ::std::fs::File::create(path.as_ref())?;
+                fs_event(FsEvent::Create {
+                    path: path.as_ref().to_path_buf(),
+                });
+                Ok(File {
+                    inner,
+                    path: path.as_ref().to_path_buf(),
+                })
+            }
+
+            pub fn sync_all(&self) -> io::Result<()> {
+                self.inner.sync_all()?;
+                fs_event(FsEvent::Sync {
+                    path: self.path.clone(),
+                });
+                Ok(())
+            }
+
+            pub fn sync_data(&self) -> io::Result<()> {
+                self.inner.sync_data()?;
+                fs_event(FsEvent::Sync {
+                    path: self.path.clone(),
+                });
+                Ok(())
+            }
+
+            pub fn metadata(&self) -> io::Result<::std::fs::Metadata> {
+                self.inner.metadata()
+            }
+
+            pub fn set_len(&self, size: u64) -> io::Result<()> {
+                self.inner.set_len(size)
+            }
+        }
+
+        impl io::Write for File {
+            fn write(&mut self, buf: &[u8]) -> io::Result<usize> {
+                let n = self.inner.write(buf)?;
+                if n > 0 {
+                    fs_event(FsEvent::Write {
+                        path: self.path.clone(),
+                        data: buf[..n].to_vec(),
+                    });
+                }
+                Ok(n)
+            }
+
+            fn flush(&mut self) -> io::Result<()> {
+                self.inner.flush()
+            }
+        }
+
+        impl io::Read for File {
+            fn read(&mut self, buf: &mut [u8]) -> io::Result<usize> {
+                self.inner.read(buf)
+            }
+        }
+
+        impl io::Seek for File {
+            fn seek(&mut self, pos: io::SeekFrom) -> io::Result<u64> {
+                self.inner.seek(pos)
+            }
+        }
+
+        /// `OpenOptions` whose `open` yields a tapped [`File`].
+        #[derive(Clone, Debug)]
+        pub struct OpenOptions {
+            inner: ::std::fs::OpenOptions,
+        }
+
+        impl OpenOptions {
+            #[allow(clippy::new_without_default)]
+            pub fn new() -> Self {
+                Self {
+                    inner: ::std::fs::OpenOptions::new(),
+                }
+            }
+            pub fn read(&mut self, v: bool) -> &mut Self {
+                self.inner.read(v);
+                self
+            }
+            pub fn write(&mut self, v: bool) -> &mut Self {
+                self.inner.write(v);
+                self
+            }
+            pub fn append(&mut self, v: bool) -> &mut Self {
+                self.inner.append(v);
+                self
+            }
+            pub fn truncate(&mut self, v: bool) -> &mut Self {
+                self.inner.truncate(v);
+                self
+            }
+            pub fn create(&mut self, v: bool) -> &mut Self {
+                self.inner.create(v);
+                self
+            }
+            pub fn create_new(&mut self, v: bool) -> &mut Self {
+                self.inner.create_new(v);
+                self
+            }
+            pub fn open<P: AsRef<Path>>(&self, path: P) -> io::Result<File> {
+                let existed = path.as_ref().exists();
+                let inner = self.inner.open(path.as_ref())?;
+                let len = inner.metadata().map(|m| m.len()).unwrap_or(0);
+                fs_event(FsEvent::Open {
+                    path: path.as_ref().to_path_buf(),
+                    existed,
+                    len,
+                });
+                Ok(File {
+                    inner,
+                    path: path.as_ref().to_path_buf(),
+                })
+            }
+        }
+
+        pub fn rename<P: AsRef<Path>, Q: AsRef<Path>>(from: P, to: Q) -> io::Result<()> {
+            ::std::fs::rename(from.as_ref(), to.as_ref())?;
+            fs_event(FsEvent::Rename {
+                from: from.as_ref().to_path_buf(),
+                to: to.as_ref().to_path_buf(),
+            });
+            Ok(())
+        }
+
+        pub fn remove_file<P: AsRef<Path>>(path: P) -> io::Result<()> {
+            ::std::fs::remove_file(path.as_ref())?;
+            fs_event(FsEvent::Remove {
+                path: path.as_ref().to_path_buf(),
+            });
+            Ok(())
+        }
+    }
+
+    /// `std::io` with a `BufWriter` whose default capacity is a simulator knob.
+    pub mod io {
+        pub use ::std::io::*;
+
+        /// Buffered writer; `new` uses the `io.bufwriter.capacity` knob when set.
+        #[derive(Debug)]
+        pub struct BufWriter<W: Write> {
+            inner: ::std::io::BufWriter<W>,
+        }
+
+        impl<W: Write> BufWriter<W> {
+            pub fn new(inner: W) -> Self {
+                match super::super::knob("io.bufwriter.capacity") {
+                    Some(cap) => Self::with_capacity(cap as usize, inner),
+                    None => Self {
+                        inner: ::std::io::BufWriter::new(inner),
+                    },
+                }
+            }
+            pub fn with_capacity(capacity: usize, inner: W) -> Self {
+                Self {
+                    inner: ::std::io::BufWriter::with_capacity(capacity, inner),
+                }
+            }
+            pub fn get_ref(&self) -> &W {
+                self.inner.get_ref()
+            }
+            pub fn get_mut(&mut self) -> &mut W {
+                self.inner.get_mut()
+            }
+            pub fn buffer(&self) -> &[u8] {
+                self.inner.buffer()
+            }
+        }
+
+        impl<W: Write> Write for BufWriter<W> {
+            fn write(&mut self, buf: &[u8]) -> Result<usize> {
+                self.inner.write(buf)
+            }
+            fn write_all(&mut self, buf: &[u8]) -> Result<()> {
+                self.inner.write_all(buf)
+            }
+            fn flush(&mut self) -> Result<()> {
+                self.inner.flush()
+            }
+        }
+    }
+
+    /// `std::time` reading the simulated clock when one is installed.
+    pub mod time {
+        pub use ::std::time::{Duration, SystemTimeError, UNIX_EPOCH};
+
+        #[derive(Debug, Clone, Copy, PartialEq, Eq, PartialOrd, Ord)]
+        enum Repr {
+            Real(::std::time::Instant),
+            Sim(u64),
+        }
+
+        /// Monotonic instant: simulated nanoseconds under a simulator, real otherwise.
+        #[derive(Debug, Clone, Copy, PartialEq, Eq, PartialOrd, Ord)]
+        pub struct Instant(Repr);
+
+        impl Instant {
+            pub fn now() -> Self {
+                match super::super::clock_ns() {
+                    Some(ns) => Instant(Repr::Sim(ns)),
+                    None => Instant(Repr::Real(::std::time::Instant::now())),
+                }
+            }
+            pub fn elapsed(&self) -> Duration {
+                Instant::now().duration_since(*self)
+            }
+            pub fn duration_since(&self, earlier: Instant) -> Duration {
+                match (self.0, earlier.0) {
+                    (Repr::Real(a), Repr::Real(b)) => a.saturating_duration_since(b),
+                    (Repr::Sim(a), Repr::Sim(b)) => Duration::from_nanos(a.saturating_sub(b)),
+                    _ => Duration::ZERO,
+                }
+            }
+        }
+
+        impl ::std::ops::Add<Duration> for Instant {
+            type Output = Instant;
+            fn add(self, d: Duration) -> Instant {
+                match self.0 {
+                    Repr::Real(a) => Instant(Repr::Real(a + d)),
+                    Repr::Sim(a) => Instant(Repr::Sim(a + d.as_nanos() as u64)),
+                }
+            }
+        }
+
+        /// Wall clock: UNIX_EPOCH + simulated nanoseconds under a simulator.
+        #[derive(Debug, Clone, Copy, PartialEq, Eq, PartialOrd, Ord)]
+        pub struct SystemTime(::std::time::SystemTime);
+
+        impl SystemTime {
+            pub fn now() -> Self {
+                match super::super::clock_ns() {
+                    Some(ns) => SystemTime(UNIX_EPOCH + Duration::from_nanos(ns)),
+                    None => SystemTime(::std::time::SystemTime::now()),
+                }
+            }
+            pub fn duration_since(
+                &self,
+                earlier: ::std::time::SystemTime,
+            ) -> Result<Duration, SystemTimeError> {
+                self.0.duration_since(earlier)
+            }
+        }
+    }
+}
